@@ -32,7 +32,7 @@ int main(int argc, char **argv) {
     std::ifstream f(argv[1], std::ios::binary); std::vector<uint8_t> bytes((std::istreambuf_iterator<char>(f)), std::istreambuf_iterator<char>());
     Src s(bytes);
     try {
-        SpecOpts so; so.min_outs = 1; so.max_outs = 2; so.cap = 3000; so.custom = false; so.conformal = false; so.min_depth = 2;
+        SpecOpts so; so.min_outs = 1; so.max_outs = 2; so.cap = 3000; so.custom = false; so.conformal = true; so.min_depth = 2;   // (conformal maps included: integrate() and the weights take a separate, separately parallelised branch)
         GridState st; st.cap = so.cap; st.spec = decode_spec(s, so); st.vm.decode(s);
         st.spec.depth = (st.spec.family == F_FOURIER) ? 7 : 14;   // as deep as the cap allows (make_grid lowers it): larger grids than in the other checks: parallel loops must actually split
         make_grid(st.g, st.spec, so.cap);
